@@ -29,7 +29,7 @@ InImage(img, a, n) == \A i \in 0..(n - 1) : (a + i) \in DOMAIN img
 Window(img, a, n) == [i \in 1..n |-> img[a + i - 1]]
 
 \* ------------------------------------------------------------------ one instruction (Disassemble callback)
-NoInstr(len) == [ok |-> FALSE, len |-> len, succ |-> {}, id |-> "", ops |-> <<>>, units |-> <<>>, flow |-> ""]
+NoInstr(len) == [ok |-> FALSE, len |-> len, succ |-> {}, id |-> "", ops |-> <<>>, units |-> <<>>, flow |-> "", tgt |-> -1]
 
 DecodeAt(img, a) ==
   IF a \notin DOMAIN img THEN NoInstr(0)                                      \* ZeroLengthOutside
@@ -49,7 +49,7 @@ DecodeAt(img, a) ==
                            [] f.flow = "jump" -> tgt
                            [] OTHER -> {}
              IN [ok |-> TRUE, len |-> n, succ |-> succ, id |-> f.id, ops |-> ops, units |-> EncodeRaw(f, ops, a),
-                 flow |-> f.flow]
+                 flow |-> f.flow, tgt |-> IF f.tf = 0 THEN -1 ELSE ops[f.tf]]
 
 \* ------------------------------------------------------------------ the worklist machine
 InitState(ents, vecs) ==              \* vecs: set of <<address, length>> vector cells given on the command line
